@@ -91,6 +91,8 @@ def invoke(case, c, operands):
 def _invoke(case, c, operands):
     be = case.get("big_endian", False)
     kind = case["kind"]
+    if gencommon.one_shot(case) and not case.get("alias"):
+        operands = [iter(list(o)) for o in operands]
     if kind == "mul":
         fn = M._process_mul[M.MulMode(case["mode"])]
         return fn(c, operands[0], operands[1], big_endian=be)
